@@ -11,5 +11,10 @@ Definition restart_resets_info : list bytes := [hex "732e696e2e496e666f" (* s.in
 
 (* ---- starttls.go StartTLS: state captured by the Negotiate closure ---- *)
 Definition starttls_captured : list bytes := [hex "636667" (* cfg *)].
-(* captured variables that Negotiate assigns to (directly or through a selector, index or dereference) *)
+(* captured variables that the closure assigns to (directly or through a selector, index or dereference) *)
 Definition starttls_negotiate_writes : list bytes := [].
+
+(* ---- negotiator.go negotiator: state captured by the returned closure ---- *)
+Definition negotiator_captured : list bytes := [hex "66" (* f *); hex "636667" (* cfg *)].
+(* captured variables that the closure assigns to (directly or through a selector, index or dereference) *)
+Definition negotiator_writes : list bytes := [hex "636667" (* cfg *)].
